@@ -103,6 +103,7 @@ Inductive event :=
 | EPreset (db : Z) (key : string) (v : value) (dl : Z)
 | ECmd (conn : Z) (argv : list string)
 | ESelectEmbedded (db : Z)
+| ENewConn (c : Z)
 | EAdvance (ms : Z)
 | EDigest
 | EBad (line : string).
@@ -122,7 +123,7 @@ Definition parse_event (line : string) : option event :=
   | ["D"; db] => match parse_int db with Some z => Some (ESelectEmbedded z) | None => Some (EBad line) end
   | ["A"; ms] => match parse_int ms with Some z => Some (EAdvance z) | None => Some (EBad line) end
   | ["G"] => Some EDigest
-  | "N" :: _ => None
+  | ["N"; c] => match parse_int c with Some z => Some (ENewConn z) | None => Some (EBad line) end
   | _ => Some (EBad line)
   end.
 
@@ -154,7 +155,8 @@ Definition step_event (w : world) (e : event) : world * list string :=
       let '(s1, _) := set_values (w_st w) db [(k, v)] in
       let s2 := if dl =? 0 then s1 else set_expiry s1 db k (Some dl) in
       (w <| w_st := s2 |>, [])
-  | ECmd c argv => let '(w', r) := exec_cmd w c argv in (w', ["R " +:+ show_reply r])
+  | ECmd c argv => let '(w', r) := exec_cmd (register_conn w c) c argv in (w', ["R " +:+ show_reply r])
+  | ENewConn c => (register_conn w c, [])
   | ESelectEmbedded d => (w <| w_conns := <[0 := d]> (w_conns w) |>, [])
   | EAdvance ms => (w <| w_st := (w_st w) <| st_now := st_now (w_st w) + ms |> |>, [])
   | EDigest => (w, ["G " +:+ show_state (w_st w)])
